@@ -7,6 +7,8 @@ CONSTANTS
   NewTexts <- MCNewTexts
   FindLen <- MCFindLen
   Nums <- MCNums
+  Scaled <- MCScaled
+  ScaleJ <- MCScaleJ
   FmtMax <- MCFmtMax
 SPECIFICATION Spec
 INVARIANT TypeOK
